@@ -451,6 +451,29 @@ pub fn run(ctx: &Ctx) -> Report {
             }
         }
     }
+    // byte-carry boundaries of the window registers: parts ending or starting at local column / row 255, 256,
+    // 511, 512 of every sub-display (mirrored for the upper two)
+    for c in 0..4 {
+        let r = CHIP_RECTS[c];
+        for l in [256u32, 512] {
+            if l < r.2 {
+                for gx in [r.0 + l, r.0 + r.2 - l] {
+                    let y = r.1 + 8;
+                    push(gx.saturating_sub(16), y, 16, 3, &mut wins);
+                    push(gx, y, 16, 3, &mut wins);
+                    push(gx.saturating_sub(8), y, 16, 3, &mut wins);
+                    push(gx.saturating_sub(64), y, 64, 2, &mut wins);
+                }
+            }
+            if l < r.3 {
+                let gy = r.1 + l;
+                let x = r.0 + 16;
+                push(x, gy - 2, 16, 2, &mut wins);
+                push(x, gy, 16, 2, &mut wins);
+                push(x, gy - 1, 16, 2, &mut wins);
+            }
+        }
+    }
     for (w, h) in [(8u32, 1u32), (1304, 1), (8, 984), (1296, 983)] {
         push(0, 0, w, h, &mut wins);
         push(W - w, H - h, w, h, &mut wins);
